@@ -15,9 +15,15 @@ PROP = dict(
                        "Comdex.C08.repay_split", "Comdex.C08.closeBorrow_split",
                        "Comdex.C08.accrual_split", "Comdex.C08.accrual_zero_elapsed", "Comdex.C08.reward_tracker_conserved", "Comdex.C08.reward_source",
                        "Comdex.C08.rejected_no_change", "Comdex.C08.killswitch_rejects_lend_ops", "Comdex.C08.killswitch_rejects_borrow_ops",
-                       "Comdex.C08.guards_reject_new_positions", "Comdex.C08.guards_reject_borrow", "Comdex.C08.depreciation_rejects"],
+                       "Comdex.C08.guards_reject_new_positions", "Comdex.C08.guards_reject_borrow", "Comdex.C08.depreciation_rejects",
+                       # depth round 2: id lists, life after the hand-over
+                       "Comdex.C08.ids_consistent", "Comdex.C08.id_lists_ascending", "Comdex.C08.delId_binary_search", "Comdex.C08.delId_needs_ascending",
+                       "Comdex.C08.lend_listed_exactly", "Comdex.C08.borrow_listed_exactly", "Comdex.C08.no_dangling_ids",
+                       "Comdex.C08.auctionClose_books", "Comdex.C08.auctionBid_books", "Comdex.C08.auctionClose_needs_lend",
+                       "Comdex.C08.auctionClose_stuck_counterexample"],
     harness_tests=["TestC08"],
-    monitors=["total_lend", "total_lend_orphaned", "total_borrowed", "total_stable", "ltv", "ltv_exact", "pool_funds", "pledged_safe"],
+    monitors=["total_lend", "total_lend_orphaned", "total_borrowed", "total_stable", "ltv", "ltv_exact", "pool_funds", "pledged_safe",
+              "ids_consistent", "reserve_ledger", "reserve_halves"],
     trusted_base=[KERNEL_TB, HARNESS_TB, DEC_TB,
                   "Model/Lend.lean is hand-written from x/lend/keeper/{keeper,funds,rates,iter}.go and x/liquidationsV2/keeper/liquidate.go:360-404; "
                   "tied by delivering generated messages to the real app (ValidateBasic + MsgServiceRouter handler on a cache context) and comparing "
